@@ -60,8 +60,8 @@ func TestReplay(t *testing.T) { harness.ReplayPath(t) }
 //	                           although InitProtect grew the init segment (sinf, pssh): every trun then addresses
 //	                           bytes in front of its mdat payload; DecryptSegment fails or decrypts the wrong bytes.
 var avoidKnown = map[string]bool{
-	cryptgen.FeatUUIDInTraf:     true,
-	cryptgen.FeatPrftBeforeMoof: true,
+	cryptgen.FeatUUIDInTraf:     false, // repaired in /repo
+	cryptgen.FeatPrftBeforeMoof: false, // repaired in /repo
 	cryptgen.FeatExplicitBase:   true,
 }
 
